@@ -1322,7 +1322,7 @@ func cfgPanicCandidates(pl string) []string {
 	if has("integer divide by zero") {
 		out = append(out, "ReportingModuloZero")
 	}
-	if has("Attempt limit reached") {
+	if isGiveUp(pl) {
 		// with no data loaded there are no actions: zero attempts are "all used up" at once
 		out = append(out, "LimitNeverBinds", "CatchmentWithoutDataSource", "CatchmentDataSourceNotLoadable")
 	}
